@@ -59,6 +59,7 @@ def parseOp (s : String) : Option Op :=
   | ["t", ts] => (parseNats ts).bind fun x => x.map Op.filterTypes
   | ["T", r] => (parseRange (r.replace "/" ",")).bind fun x => x.map Op.filterTime
   | ["s", i, j] => do let i ← i.toNat?; let j ← j.toNat?; pure (.filterSlice i j)
+  | ["s", i, j, k] => do let i ← i.toNat?; let j ← j.toNat?; let k ← k.toNat?; if k = 0 then none else pure (.filterStride i j k)
   | ["u"] => some .removeUntimed
   | ["c"] => some .clear
   | ["w"] => some .rewind
